@@ -13,10 +13,9 @@ def modSt (f : St → St) : M Unit := fun st => .ok ((), f st)
 /-- `s.startswith(p)` -/
 def pyStartsWith (s p : Str) : Bool := p.isPrefixOf s
 
-/-- `for variant in re.split(r",|\.|\.\.", value): if variant in available_restrictions: use_tests_default = False`
-(`else: with_nontrivial_restrictions = True` only feeds a log line) -/
-def scanPrimary (av : Avail) (value : Str) : M Unit :=
-  modSt (fun st => { st with useDef := st.useDef && !(splitVariants value).any (av.restrictions.contains ·) })
+/-- `use_tests_default = False` (inside the primary-restriction scan; its `else: with_nontrivial_restrictions = True`
+only feeds a log line) -/
+def dropTestsDefault : M Unit := modSt (fun st => { st with useDef := false })
 /-- `tests_str += "%s %s\n" % (key, value)` -/
 def addTestsLine (key value : Str) : M Unit := modSt (fun st => { st with tests := st.tests ++ [(key, value)] })
 /-- `nets_str = "%s %s\n" % (key.replace("_nets", ""), value) if value else ""` -/
@@ -27,17 +26,16 @@ def setNetsByRestr (av : Avail) : M Unit := fun st =>
   match netsBy av st.netsStr with
   | .error e => .error e
   | .ok names => .ok ((), { st with pd := dictSet st.pd kNets (joinSp names) })
-/-- the body of `if re.fullmatch(f"(only|no)_{vm_name}", key):` for the first vm that matches:
-`use_vms_default[vm_name] = False`, `vm_strs[vm_name] += "%s %s\n" % (key.replace(f"_{vm_name}", ""), value) if value else ""` -/
-def addVmLine (vm key value : Str) : M Unit :=
-  modSt (fun st => { st with vmNoDef := vm :: st.vmNoDef,
-                             vmLines := if value.isEmpty then st.vmLines
-                                        else st.vmLines ++ [(vm, (removeAll ('_' :: vm) key, value))] })
+/-- `use_vms_default[vm_name] = False` -/
+def dropVmDefault (vm : Str) : M Unit := modSt (fun st => { st with vmNoDef := vm :: st.vmNoDef })
+/-- `"%s %s\n" % (key.replace(f"_{vm_name}", ""), value) if value else ""` (none = the empty string) -/
+def vmStrOf (vm key value : Str) : Option (Str × Str) :=
+  if value.isEmpty then none else some (removeAll ('_' :: vm) key, value)
+/-- `vm_strs[vm_name] += vm_str` -/
+def addVmStr (vm : Str) (line : Option (Str × Str)) : M Unit :=
+  modSt (fun st => { st with vmLines := match line with | none => st.vmLines | some l => st.vmLines ++ [(vm, l)] })
 /-- `with_selected_vms[:] = value.split(",")` -/
 def setSelVms (value : Str) : M Unit := modSt (fun st => { st with selVms := splitComma value })
-/-- `for vm_name in with_selected_vms: if vm_name not in available_vms: raise ValueError(…)` -/
-def checkSelVms (av : Avail) : M Unit := fun st =>
-  if st.selVms.all (av.vms.contains ·) then .ok ((), st) else .error Err.valueError
 /-- `param_dict[key] = value` -/
 def setParam (key value : Str) : M Unit := modSt (fun st => { st with pd := dictSet st.pd key value })
 /-- `explicit_nets = value` (only `explicit_nets is not None` is ever observed) -/
@@ -49,7 +47,11 @@ def genStep (av : Avail) (cmd_param : Str) : M (Unit) := do
     throw Err.valueError
   let mut (key, value) := (splitArg cmd_param).getD ([], [])
   if ((key == kOnly) || (key == kNo)) then
-    scanPrimary av value
+    (splitVariants value).forM fun variant => do
+      if (av.restrictions.contains variant) then
+        dropTestsDefault
+      else
+        pure ()
     addTestsLine key value
   else if ((pyStartsWith key kOnlyU) || (pyStartsWith key kNoU)) then
     if (netsKey key) then
@@ -58,10 +60,18 @@ def genStep (av : Avail) (cmd_param : Str) : M (Unit) := do
         throw Err.valueError
       setNetsByRestr av
     else
-      match av.vms.find? (vmKey key) with | some vm => addVmLine vm key value | none => throw Err.valueError
+      match (av.vms.find? (fun vm_name => (vmKey key vm_name))) with
+      | some vm_name =>
+        dropVmDefault vm_name
+        let vm_str := vmStrOf vm_name key value
+        addVmStr vm_name vm_str
+      | none =>
+        throw Err.valueError
   else if (key == kVms) then
     setSelVms value
-    checkSelVms av
+    (← readSt (fun st => st.selVms)).forM fun vm_name => do
+      if (!(av.vms.contains vm_name)) then
+        throw Err.valueError
   else if (key == kNets) then
     if (← readSt (fun st => st.netsStr.isSome)) then
       throw Err.valueError
